@@ -223,6 +223,7 @@ func genTable(r *rand.Rand, idx int, srs srsSpec) tableSpec {
 	}
 	cols = append(cols[:gPos:gPos], append([]colSpec{g}, cols[gPos:]...)...)
 	t.Cols = cols
+	t.Defaults = genDefaults(t)
 	return t
 }
 
@@ -912,6 +913,7 @@ func runC12(c *hc.Ctx) error {
 		for _, t := range k.Tables {
 			c.Count("source records extent: " + t.SrcExtentMode)
 			c.Count(fmt.Sprintf("source z=%d m=%d", t.Z, t.M))
+			c.Count(defaultsClass(t))
 		}
 		c.Count(fmt.Sprintf("p=%d", k.P))
 		switch {
